@@ -156,6 +156,44 @@ def blocking_clause(inp, model):
     return z3.Or(*diffs) if diffs else z3.BoolVal(False)
 
 
+def _diversify(e, inp, replay, seed, budget=120):
+    import random
+    rnd = random.Random(seed * 7919 + 13)
+    leaves = []
+    _leaves(inp, leaves)
+    ints = []
+    for v in leaves:
+        if isinstance(v, SymInt):
+            ints.append(v.z)
+        elif getattr(v, '__is_sym__', False) and hasattr(v, 'ord'):
+            ints.extend([t for t in (getattr(v, 'ord', None), getattr(v, 'us', None)) if t is not None and not z3.is_int_value(t)])
+    if not ints:
+        return None
+    old_to = e.z3_first_ms
+    tried = 0
+    for _ in range(budget * 2):
+        if tried >= budget or (e.deadline and time.time() > e.deadline - 5):
+            break
+        e.solver.push()
+        try:
+            for z in rnd.sample(ints, min(len(ints), 2)):
+                m = rnd.choice([3, 7, 11, 60, 97, 1000, 3600, 86400])
+                e.solver.add(z % m == rnd.randrange(m))
+            try:
+                if not e.check():
+                    continue
+            except (Unmodelled, CaseDeadline):
+                continue
+            tried += 1
+            inp_c = spec.concretize(inp, e.get_model())
+            rr = replay(inp_c)
+            if rr.get('status') in ('violated', 'hang', 'raised'):
+                return inp_c, rr
+        finally:
+            e.solver.pop()
+    return None
+
+
 def run_case(job):
     hname, params, tier, kfs, seed = job
     h = REGISTRY[hname]
@@ -251,7 +289,16 @@ def run_case(job):
                     res['spurious_examples'].append({'query': str(q)[:1500], 'inputs': spec.enc(inp_c), 'replay': rr})
                 e.solver.add(blocking_clause(inp, m))
             else:
-                info['cands'].append(('undecided', None, {'detail': 'only spurious witnesses in 6 tries'}))
+                # The abstraction (float rounding, stubs) admits this violation but six witnesses did not reproduce.
+                # Bug-hunting sweep: diversify the witnesses with random residue constraints on the integer inputs
+                # and replay each; a reproducing one is reported (flagged bug_hunting_only), otherwise undecided.
+                hit = _diversify(e, inp, replay, seed)
+                if hit is not None:
+                    info['cands'].append((k, hit[0], dict(hit[1], bug_hunting_only=True)))
+                    if k is None:
+                        found_plain = True
+                else:
+                    info['cands'].append(('undecided', None, {'detail': 'only spurious witnesses in 6 tries (+ diversified sweep)'}))
             e.solver.pop()
         # sample of this path (vacuity guard: the assertion was reached with a satisfiable path condition)
         if len(res['samples']) < 4 or res['reach'] < 1:
